@@ -179,9 +179,10 @@ def c09(tier):
                                              "the records of the complete datagram used by the truncation oracle are the implementation's own decode of it (differential), its correctness is C03/C06"], t0=t0)
 
 
-CRASH_SPACES = ["ipfix.grammar", "ipfix.mutate", "ipfix.history", "v9.grammar", "v9.mutate", "v9.history", "v5.grammar", "v5.mutate",
-                "sflow.grec", "sflow.graw", "sflow.ghdr", "sflow.mutate"]
-CRASH_RULE = ("per protocol: grammar spaces (every set id / length-field mode / body from a boundary alphabet incl. ~500 template-record bodies with field count, scope count, element id and field length in {0,1,2,4,65535,...}; two-set datagrams; template+data in one datagram; sFlow: every record type x declared length 0..32 and extremes x actual length, raw-header protocol x header length 0..64,1498..1503,2^31,2^32-1 x ethertype x IHL x L4; datagram header fields x sample count x tag x length), "
+CRASH_SPACES = ["ipfix.grammar", "ipfix.mutate", "ipfix.history", "ipfix.dense", "v9.grammar", "v9.mutate", "v9.history", "v9.dense", "v5.grammar", "v5.mutate",
+                "sflow.grec", "sflow.graw", "sflow.ghdr", "sflow.mutate", "sflow.dense"]
+CRASH_RULE = ("per protocol: grammar spaces (every set id / length-field mode / body from a boundary alphabet incl. ~500 template-record bodies with field count, scope count, element id and field length in {0,1,2,4,65535,...}; two-set datagrams; template+data in one datagram; sFlow: every record type x declared length 0..32 and extremes x actual length, raw-header protocol x header length 0..64,1498..1503,2^31,2^32-1 x ethertype (incl. single and stacked VLAN tags 0x8100 / 0x88a8 / 0x9100, up to three deep) x IHL x L4; datagram header fields x sample count x tag x length), "
+              "dense spaces: datagrams up to the UDP maximum made of the smallest units (64..16000 sets of 4..8 octets of every kind, 64000 one-octet records, thousands of empty sFlow samples / records), "
               "mutation closure of well-formed seeds (every truncation, every single-octet substitution with {00,01,7f,80,ff,v+1,v-1}; thorough: every pair of positions in the first 64 octets), "
               "and template-cache histories (explicit-state: every pair of template announcements for two ids from the adversarial template alphabet = every cache state over those ids, then every data datagram of the data alphabet from every state; 3 exporter address forms). "
               "Non-trivial = non-empty datagram (grammar/mutation) / distinct canonical cache state (history); distinct by FNV-64 of the octets / of the canonical state.")
@@ -198,7 +199,7 @@ def crash_check(pid, tier, alloc):
             r.states = r.nontrivial
         res.append(r)
     assume = ["decode + JSON encoding is called exactly as the protocol's worker does (Decoder.Decode then JSONMarshal / json.Marshal); the worker loop itself is covered by C12/C13",
-              "small-scope: datagrams up to a few hundred octets (one 65507-octet NetFlow v5 case); templates for two ids",
+              "small-scope: datagrams up to a few hundred octets, plus the dense spaces (up to 65000 octets of minimal units) and one 65507-octet NetFlow v5 case; templates for two ids",
               "a panic is caught in-process; a fatal error, an out-of-memory kill (RLIMIT_AS 3 GiB) or 15 s without progress on a microsecond-scale case is re-run alone twice before it is reported"]
     if not alloc:
         # "never terminates the process" with the collector's own concurrency: fatal errors such as concurrent
@@ -257,7 +258,7 @@ def c18(tier):
     import shutil
     shutil.rmtree(d, ignore_errors=True)
     return finish("C18", tier, res,
-                  rule="every sample sequence of length 0..3 over {flow{raw}, flow{sw}, flow{}, counter{gen}, counter{vg,vlan,proc}, unknown3, unknown4, vendor} x 18 filter lists (incl. numbers that are record formats inside samples: 1001, 1002, 4, 5) ([], [1], [2], [3], [1,2], [2,3], [1,3], [1,2,3], [0], [7], [vendor tag], [2^32-1]); oracle: reference tree without the listed types AND the implementation's own unfiltered decode with exactly the listed types removed. opts.filter: every comma list of length 1..3 over {0,1,2,3,2^32-1,2^32,-1,x,empty} through the real flag parser and the YAML list form through the real option loading. pipe.c18: the real sFlow receive loop with two workers and three-entry filters under the controlled scheduler (deviation bound 1, thorough 3): the filter list is one slice shared by all workers - published = standalone filtered decode, race detector per schedule. Non-trivial = every case.",
+                  rule="every sample sequence of length 0..3 over {flow{raw}, flow{sw}, flow{}, counter{gen}, counter{vg,vlan,proc}, unknown3, unknown4, vendor} x 28 filter lists (incl. numbers that are record formats inside samples: 1001, 1002, 4, 5, and lists of 16, 17, 33, 64, 257 entries whose last entry is the type to remove) ([], [1], [2], [3], [1,2], [2,3], [1,3], [1,2,3], [0], [7], [vendor tag], [2^32-1]); oracle: reference tree without the listed types AND the implementation's own unfiltered decode with exactly the listed types removed. opts.filter: every comma list of length 1..3 over {0,1,2,3,2^32-1,2^32,-1,x,empty} through the real flag parser and the YAML list form through the real option loading. pipe.c18: the real sFlow receive loop with two workers and three-entry filters under the controlled scheduler (deviation bound 1, thorough 3): the filter list is one slice shared by all workers - published = standalone filtered decode, race detector per schedule. Non-trivial = every case.",
                   assumptions=SF_ASSUME + PIPE_ASSUME, t0=t0)
 
 
@@ -267,7 +268,7 @@ def c05(tier):
     bf, b5, bs = build("flow"), build("nf5"), build("sflowc")
     res = []
     for p in ("ipfix", "v9"):
-        for sp in ("json.pos", "json.pairs", "json.shape", "json.mixed", "json.counts") + (("json.triples",) if tier == "thorough" else ()):
+        for sp in ("json.pos", "json.pairs", "json.shape", "json.mixed", "json.counts", "json.allelems") + (("json.triples",) if tier == "thorough" else ()):
             res.append(run_space(bf, p + "." + sp, tier))
     r5 = run_space(b5, "v5.rec", tier)
     r5.viol = [v for v in r5.viol if v["sig"].startswith("v5:json")]  # field mapping itself is C08's
@@ -275,7 +276,7 @@ def c05(tier):
     for sp in ("sflow.seq", "sflow.onehot", "sflow.frames"):
         res.append(run_space(bs, sp, tier))
     return finish("C05", tier, res,
-                  rule="IPFIX/v9: a value alphabet aimed at the encoder (strings with each of the 32 control characters, quote, backslash, slash, DEL, U+2028, 2/3/4-byte UTF-8, four kinds of invalid UTF-8, empty, HTML, 300 octets, JSON-looking; float32/64: +-0, +-Inf, quiet/signalling NaN, min/max denormal, max finite, 1e21, 1e-7, 0.1; booleans from octets 0,1,2,255; every integer width at 0/1/max/min; MAC, IPv4, IPv6 (::, ::1, v4-mapped, v4-compatible, all-ones); octet arrays of 0..3; reduced-size encodings; enterprise numbers 1, 29305, 2^32-1); json.counts: size instead of shape - N records, N fields per record, one string / octet-array value of L octets, N and L around every power of two from 2 to 32768 and 1000, 60000 (as far as 65000 octets allow); "
+                  rule="IPFIX/v9: a value alphabet aimed at the encoder (strings with each of the 32 control characters, quote, backslash, slash, DEL, U+2028, 2/3/4-byte UTF-8, four kinds of invalid UTF-8, empty, HTML, 300 octets, JSON-looking; float32/64: +-0, +-Inf, quiet/signalling NaN, min/max denormal, max finite, 1e21, 1e-7, 0.1; booleans from octets 0,1,2,255; every integer width at 0/1/max/min; MAC, IPv4, IPv6 (::, ::1, v4-mapped, v4-compatible, all-ones); octet arrays of 0..3; reduced-size encodings; enterprise numbers 1, 29305, 2^32-1); json.allelems: every element of the information model (all ids and enterprise numbers, incl. ids above 30000) as a one-field template in front of / behind an ordinary field; json.counts: size instead of shape - N records, N fields per record, one string / octet-array value of L octets, N and L around every power of two from 2 to 32768 and 1000, 60000 (as far as 65000 octets allow); "
                        "placed first/middle/last/alone in a record, as scope or option field, from 4 exporter address forms; every ordered PAIR of values in one record; 1..3 sets x 1..3 records x 1..3 fields; data sets of two templates with different field counts interleaved in one message (AB, BA, ABA, BAB). v5: the C08 space, JSON oracle only. sFlow: the C07 sequence, one-hot and frame spaces (published JSON compared with the reference tree). "
                        "Oracle: json.Valid, valid UTF-8, single document, exact key sets, integers as exact decimals, floats bit-exact after ParseFloat (non-finite: any string naming the class), strings equal up to U+FFFD substitution, addresses canonical and parsing back to the same octets, 0x-hex octet arrays. Non-trivial = every case; distinct = wire octets x exporter.",
                   assumptions=FLOW_ASSUME + SF_ASSUME + ["a JSONMarshal error on a decodable message is reported here too (nothing valid can be published for it)"], t0=t0)
@@ -297,10 +298,10 @@ def c20(tier):
 def c04(tier):
     t0 = time.time()
     b = build("flow")
-    res = [run_space(b, "cache.bfs", tier, hang_s=300), aging_space()]
+    res = [run_space(b, "cache.bfs", tier, hang_s=300), run_space(b, "cache.capacity", tier, hang_s=300), aging_space()]
     return finish("C04", tier, res,
                   rule="explicit-state BFS to closure, IPFIX and NetFlow v9: state = reference map over 6 keys (A/256, A/257, the same IPv4 in 4-byte form, an IPv6 exporter, and two exporters whose addr||id collide under 32-bit FNV-1; thorough adds an IPv6 colliding pair) -> one of 4 definitions (two element lists of equal length and type width, one with the same element but another field length, one with two fields) or none (thorough: 8 keys incl. an IPv6 colliding pair x 3 definitions, and 6 keys x 5 definitions); events per key: announce alone / template then data in one message / data then template in one message / data / peer IRPC.Get / peer-fetched insert; "
-                       "the reference model is searched on its own to enumerate every state with a shortest history (announcing event kinds rotate); each state is a case: successor = replay of that history on a fresh real cache + the event; after every transition every key is probed with a data message (decoded under exactly ref[k], or 'unknown template' with no records) and the canonical cache content must be a function of the reference state. Non-trivial = every reference state; distinct by state." + AGING_RULE,
+                       "the reference model is searched on its own to enumerate every state with a shortest history (announcing event kinds rotate); each state is a case: successor = replay of that history on a fresh real cache + the event; after every transition every key is probed with a data message (decoded under exactly ref[k], or 'unknown template' with no records) and the canonical cache content must be a function of the reference state. Non-trivial = every reference state; distinct by state. Mode 'options': three keys x three options templates that differ only in the scope field / only in the option field / in both. Mode 'undecodable': definitions naming an element absent from the model (data for them yields nothing) superseding and superseded by a decodable one. cache.capacity: one exporter announces, N other exporter/id pairs announce afterwards (N in {1, 31..33, 1000, 4095..4097, 40000, 140000}; thorough up to 600000; with the same and with other template ids), then the first exporter's data and that of every 97th other must decode under their own templates - the statement has no bound on how many exporters there are." + AGING_RULE,
                   assumptions=["states are merged on the reference map; the implementation's canonical cache content (read from the exported structure, timestamps dropped) is checked to be a function of it, which is what makes the merge sound",
                                "the FNV-colliding exporter pairs were found offline by a birthday search and are recomputed with hash/fnv at start-up",
                                "peer-fetched insert uses the cache's private insert through a verif-tagged export file injected by the overlay"], t0=t0)
